@@ -83,6 +83,11 @@ class MTVRPAdapter(RoutingAdapter):
     reward_td = "reset"
     shard = 60
     tiny = 3
+    # keys of the step output compared with the row model after every step in C02 / C04 (Harness/HMTVRP.v book_obs)
+    book_keys = (("current_node", "int"), ("current_route_length", "f"), ("current_time", "f"), ("used_capacity_linehaul", "f"),
+                 ("used_capacity_backhaul", "f"), ("visited", "bits"))
+    book_fn = "check_book"
+    book_type = "mtvrp_book"
 
     # ---------------------------------------------------------------- variants
     # speeds per time site (rotating; the first closed preset with windows gets 1/2 and 2) and, per speed, the offsets of
@@ -745,6 +750,97 @@ class MTVRPAdapter(RoutingAdapter):
         out.update({"c05_instances": n_inst, "c05_solutions": n_sol, "c05_hidden": n_missing, "c05_reachable_not_in_spec": n_extra})
         return out
 
+    # ---------------------------------------------------------------- C06: instances outside the documented format
+    def ill_formed_cases(self, ctx, tier, items):
+        """The checker's instance-sanity asserts (non-negative time windows / service times, windows of positive length,
+        "window start + travel time to the depot + service within the depot deadline") must refuse the instance whatever the
+        solution.  Exact-grid instances whose mask-made solution the checker accepts get ONE sanity fault that leaves the
+        time loop of the checker satisfied, so that only the assert can (and must) refuse:
+          neg-window     a customer's window opens one grid unit before time 0
+          neg-service    a customer's service time is minus one grid unit
+          empty-window   lo := hi at a customer (only where the window is finite)
+          cannot-return  x = last stop of the list, which is not closed by a depot visit: window start := depot deadline -
+                         travel time home - service + 1 unit (only where the depot deadline is finite)"""
+        from vt.envprops import CONCRETE
+        rng = ctx.rng
+        pool, seen = [], set()
+        for it in items:
+            if it.batch != "solo" or not it.ep.complete or not it.ep.checker or id(it.td_in) in seen:
+                continue
+            if not str(it.meta.get("kind", "")).startswith("exact"):
+                continue
+            seen.add(id(it.td_in))
+            pool.append(it)
+        rng.shuffle(pool)
+        pool.sort(key=lambda it: 0 if feats(it.variant["preset"])["TW"] else 1)       # finite windows first
+        cases, meta = [], []
+        unit = 1.0 / U
+        for it in pool[: (6 if tier == "quick" else 60)]:
+            acts = list(it.ep.actions)
+            while acts and acts[-1] == 0:
+                acts.pop()
+            if not acts:
+                continue
+            cust = [a for a in acts if a != 0]
+            for ill in ("neg-window", "neg-service", "empty-window", "cannot-return"):
+                td = it.td_in.clone()
+                tw = td["time_windows"].clone()
+                sv = td["service_time"].clone()
+                x = cust[-1] if ill == "cannot-return" else rng.choice(cust)
+                if ill == "neg-window":
+                    tw[0, x, 0] = -unit
+                elif ill == "neg-service":
+                    sv[0, x] = -unit
+                elif ill == "empty-window":
+                    if float(tw[0, x, 1]) == INF:
+                        continue
+                    tw[0, x, 0] = tw[0, x, 1]
+                else:
+                    H = float(tw[0, 0, 1])
+                    if H == INF:
+                        continue
+                    t_home = float((self.dist_matrix(td) / td["speed"][0])[x, 0])
+                    lo_x = H - t_home - float(sv[0, x]) + unit
+                    if lo_x < 0:
+                        continue
+                    tw[0, x, 0] = lo_x
+                    tw[0, x, 1] = lo_x + unit
+                td["time_windows"] = tw
+                td["service_time"] = sv
+                td_r = it.env.reset(td.clone())
+                for a in ([acts] if (ill == "cannot-return" or tier == "quick") else [acts, acts + [0]]):
+                    v = envh.verdict(it.env, td_r, torch.tensor([a], dtype=torch.int64))
+                    if v is None:
+                        continue
+                    fake = self._fake_item(it.env, td, a, dict(it.meta, kind="illformed/" + ill, ill_formed=ill, node=x), verdict=v)
+                    fake.variant = it.variant
+                    try:
+                        cases.append("(%s, %s, %s)" % (self.coq_instance(it.env, td_r, it.variant), cnatlist(a), cbool(v)))
+                    except ValueError:
+                        continue
+                    meta.append(fake)
+                    ctx.count("%s/c06_illformed_instance/%s/%s" % (self.name, ill, "accepted" if v else "rejected"))
+        if not cases:
+            return {}
+        codes = coq_eval_shards("cases_C06_%s_ill" % self.name, self.header, self.sol_type, self.sol_fn, cases,
+                                shard=max(6, (len(cases) + 3) // 4))
+        nd = nc = 0
+        for it, c in zip(meta, codes):
+            ctx.seen({"e": self.name, "ill": it.meta.get("ill_formed"), "a": it.ep.actions, "i": str(it.td_in["time_windows"].tolist()) + str(it.td_in["service_time"].tolist())})
+            if c == 0:
+                continue
+            if c in CONCRETE:
+                nc += 1
+                ctx.failure(self.signature(it, c, 0), it.replay({"what": CONCRETE[c], "ill_formed": it.meta.get("ill_formed"), "node": it.meta.get("node")}),
+                            tag=self.name)
+            else:
+                nd += 1
+                if nd == 1:
+                    path = ctx.write_replay(it.replay({"code": c, "what": "checker model verdict differs from the implementation on an ill-formed instance"}),
+                                            tag="corr-" + self.name)
+                    ctx.broken.append("correspondence C06/%s (ill-formed instance %s): code %d, case file %s" % (self.name, it.meta.get("ill_formed"), c, path))
+        return {"c06_illformed_cases": len(cases), "c06_illformed_disagreements": nd, "c06_illformed_concrete": nc}
+
     # ---------------------------------------------------------------- C06: corruptions (base) + witnesses + batch probe
     def extra_c06(self, ctx, tier, items):
         from vt.envprops import CONCRETE
@@ -773,6 +869,7 @@ class MTVRPAdapter(RoutingAdapter):
                 nd += 1
                 ctx.broken.append("correspondence C06/%s (witness %s): code %d" % (self.name, it.meta, c))
         out.update({"c06_witness_cases": len(cases), "c06_witness_disagreements": nd})
+        out.update(self.ill_formed_cases(ctx, tier, items))
         # the checker compares used_cap [B] with vehicle_capacity [B,1]: every row's load against every row's capacity
         a = self.mk_td([self.P(0), self.P(5), self.P(9)], [0, .5, .5], [0, 0, 0], cap=1.0)
         b = self.mk_td([self.P(0), self.P(5), self.P(9)], [0, 1.0, 1.0], [0, 0, 0], cap=2.0)
